@@ -49,7 +49,7 @@ func C11(p *core.Program, r *core.Report) {
 		// the flags handed to the message constructor, evaluated on the path
 		pe.OnInstr = func(in ssa.Instruction, st *core.PathState) {
 			if c, ok := in.(*ssa.Call); ok && core.NameIs(core.CalleeName(c), msgsPkg+".NewDataTransmissionMessage") {
-				if k, ok := st.Known(core.CallArgs(c)[0]); ok {
+				if k, ok := st.Known(core.Arg(c, 0)); ok {
 					st.Data["flags"] = k
 				} else {
 					st.Data["flags"] = int64(-1)
@@ -148,7 +148,7 @@ func C11(p *core.Program, r *core.Report) {
 	// segment data: (sub)slice of make([]byte, mtu)
 	okBuf := false
 	for _, c := range core.CallsTo(ns, msgsPkg+".NewDataTransmissionMessage") {
-		data := core.CallArgs(c)[2]
+		data := core.Arg(c, 2)
 		vals := []ssa.Value{data}
 		if phi, ok := data.(*ssa.Phi); ok {
 			vals = phi.Edges
@@ -168,7 +168,7 @@ func C11(p *core.Program, r *core.Report) {
 		}
 		okBuf = all
 		// flags and id
-		okId := pathEndsWith(core.CallArgs(c)[1], "Id")
+		okId := pathEndsWith(core.Arg(c, 1), "Id")
 		r.Check(okId, "segment/"+fname(ns)+"/transfer-id", "every segment carries the transfer's id", p.Pos(c.Pos()), "", "id argument is not t.Id")
 	}
 	r.Check(okBuf, "segment/"+fname(ns)+"/size", "a segment's data is a prefix of a buffer allocated with exactly the negotiated segment size (never larger)", p.Pos(ns.Pos()), "", "data is not (a prefix of) make([]byte, mtu)")
@@ -263,7 +263,7 @@ func C11(p *core.Program, r *core.Report) {
 			}
 		}
 		r.Check(notFin && okId, "receiver/"+fname(in)+"/write-guarded", "segment data is appended only if the transfer has not ended and the segment belongs to it", p.Pos(w.Pos()), "", fmt.Sprintf("!IsFinished: %v, id match: %v", notFin, okId))
-		r.Check(pathEndsWith(core.CallArgs(w)[0], "Data"), "receiver/"+fname(in)+"/writes-segment-data", "what is appended is the segment's data", p.Pos(w.Pos()), "", "argument is not dtm.Data")
+		r.Check(pathEndsWith(core.Arg(w, 0), "Data"), "receiver/"+fname(in)+"/writes-segment-data", "what is appended is the segment's data", p.Pos(w.Pos()), "", "argument is not dtm.Data")
 	}
 	for _, fn := range p.RepoFuncs() {
 		core.EachInstr(fn, func(i ssa.Instruction) {
@@ -292,7 +292,7 @@ func C11(p *core.Program, r *core.Report) {
 		r.Check(g, "receiver/"+fname(tb)+"/only-finished", "the collected data is parsed only after the END segment", p.Pos(c.Pos()), "", "not guarded by IsFinished()")
 	}
 	for _, c := range core.CallsTo(in, msgsPkg+".NewDataAcknowledgementMessage") {
-		lc, ok := core.Strip(core.CallArgs(c)[2]).(*ssa.Call)
+		lc, ok := core.Strip(core.Arg(c, 2)).(*ssa.Call)
 		okLen := ok && core.CalleeName(lc) == "bytes.Buffer.Len"
 		r.Check(okLen, "receiver/"+fname(in)+"/ack-cumulative", "the acknowledgement carries the cumulative number of bytes received", p.Pos(c.Pos()), "", "AckLen is not buf.Len()")
 	}
